@@ -368,12 +368,14 @@ func runFree(res *caseResult, idx int, dir, tier string, rnd *rand.Rand) {
 	var ackOpen = map[string]int64{}
 	track := &pendingTracker{base: sc.Base, pending: map[int64][]node.Point{}}
 	ackGen := map[int64][][]node.Point{} // family time -> generations whose ack window was seen
+	// wmu keeps the instant at which a flush switches the memory database apart from the queried writes, so the harness
+	// knows exactly which points a flushed generation holds (queries and the rest of the flush still overlap freely)
+	var wmu sync.Mutex
+	flushing := map[int64][]node.Point{} // family time -> the generation being flushed
 	r.n.AckHook = func(f tsdb.DataFamily, _ int64) {
 		mu.Lock()
 		ackOpen[f.Indicator()] = stamp()
-		// the generation this flush wrote = the points recorded for the family since its previous flush (points that
-		// arrived after the memory database was switched are misattributed; this only feeds the classification)
-		gens := append(ackGen[f.FamilyTime()], track.take(f.FamilyTime()))
+		gens := append(ackGen[f.FamilyTime()], flushing[f.FamilyTime()])
 		if len(gens) > 3 {
 			gens = gens[len(gens)-3:]
 		}
@@ -425,11 +427,49 @@ func runFree(res *caseResult, idx int, dir, tier string, rnd *rand.Rand) {
 			default:
 			}
 			from := stamp()
-			// the generations being flushed now are what pending holds at this moment (approximation used only to
-			// classify a mismatch, never to accept one silently)
-			if err := r.n.FlushAll(); err != nil {
+			// the production order: metadata, shard index, then every family
+			ferr := r.n.FlushMeta()
+			if ferr == nil {
+				ferr = r.n.FlushIndex()
+			}
+			for _, f := range r.n.AllFamilies() {
+				if ferr != nil {
+					break
+				}
+				fam := f
+				wmu.Lock()
 				mu.Lock()
-				res.Notes = append(res.Notes, "flush failed: "+err.Error())
+				flushing[fam.FamilyTime()] = track.take(fam.FamilyTime())
+				mu.Unlock()
+				done := make(chan error, 1)
+				go func() { done <- fam.Flush() }()
+				// hold the writers until the memory database has been switched (or the flush is over)
+				switched := false
+				for !switched {
+					select {
+					case ferr = <-done:
+						done <- ferr
+						switched = true
+					default:
+						hasMutable := false
+						for _, st := range fam.GetState().MemoryDatabases {
+							if st.State == "mutable" {
+								hasMutable = true
+							}
+						}
+						if !hasMutable {
+							switched = true
+						} else {
+							time.Sleep(20 * time.Microsecond)
+						}
+					}
+				}
+				wmu.Unlock()
+				ferr = <-done
+			}
+			if ferr != nil {
+				mu.Lock()
+				res.Notes = append(res.Notes, "flush failed: "+ferr.Error())
 				mu.Unlock()
 			}
 			to := stamp()
@@ -476,9 +516,11 @@ func runFree(res *caseResult, idx int, dir, tier string, rnd *rand.Rand) {
 		}
 		wb := wg.batch(round, fields)
 		if len(wb.Points) > 0 {
-			// the tracker must know the points before the memory database can be switched with them inside
+			wmu.Lock()
 			track.add(wb.Points)
-			if err := r.write(wb.Points); err != nil {
+			err := r.write(wb.Points)
+			wmu.Unlock()
+			if err != nil {
 				res.Notes = append(res.Notes, "write failed: "+err.Error())
 				break
 			}
